@@ -195,6 +195,31 @@ def scipy_harmonics(n, lmax):
     return _ysp[key]
 
 
+_yreal = {}
+
+
+def standard_real_harmonics(n, lmax):
+    """Real spherical harmonics in the standard convention (column l*l + l + m; m > 0 <-> cos(m phi),
+    m < 0 <-> sin(|m| phi), Condon-Shortley phase removed), from scipy's complex Y_l^m on the n-point
+    Lebedev grid.  For l = 1 this is (y, z, x) * sqrt(3/4pi), the convention `dirs` documents."""
+    key = (n, lmax)
+    if key not in _yreal:
+        ysp = scipy_harmonics(n, lmax)
+        out = np.zeros((n, (lmax + 1) ** 2))
+        for l in range(lmax + 1):
+            for m in range(-l, l + 1):
+                c = ysp[l][:, l + abs(m)]
+                if m == 0:
+                    v = c.real
+                elif m > 0:
+                    v = np.sqrt(2.0) * (-1) ** m * c.real
+                else:
+                    v = np.sqrt(2.0) * (-1) ** m * c.imag
+                out[:, l * l + l + m] = v
+        _yreal[key] = out
+    return _yreal[key]
+
+
 def expected_tables(mol, case, level, prune_name, use_default_key):
     """Per atom: radial nodes and the angular size of each node, re-derived from PySCF's documented
     rules (atom_grid forms, level tables, radial scheme, pruning function)."""
@@ -351,6 +376,10 @@ def check_ylm_table(ctx, Y, nang, lmax, stage):
     err = float(np.max(np.abs(G - np.eye(nL))))
     ctx.measure("ylm_orthonormality", err / YTOL)
     ctx.check(err <= YTOL, ("ylm_orthonormality", stage, cls), err=err, tol=YTOL, supported=L)
+    ref = standard_real_harmonics(nang, Lq)
+    e = float(np.max(np.abs(Y[:, :nL] - ref[:, :nL])))
+    ctx.measure("ylm_vs_standard_real_harmonics", e / YTOL)
+    ctx.check(e <= YTOL, ("ylm_vs_standard_real_harmonics", stage, cls), err=e, tol=YTOL, supported=L)
     # degree structure without any sign / ordering convention: the 2l+1 columns tabulated for degree l span
     # the space of degree-l harmonics (projection onto scipy's Y_l^m is unitary, onto other degrees zero)
     ysp = scipy_harmonics(nang, Lq)
@@ -539,7 +568,9 @@ RULE = ("molecules of 1-4 atoms from H..Ar (element pool with repeats), tetrahed
         "rad_loc partitions against counts re-derived from PySCF's radial scheme and pruning function; padding == "
         "size - idx_map.size == (-n) mod alignment with zero weight; per (table, angular size): 4pi sum w Y Y' = "
         "delta up to min(lmax, Lebedev order//2) at 1e-12, exact zeros above the shell's degree, degree-l block "
-        "spans scipy's degree-l harmonics, dirs == Lebedev unit vectors at 1e-14. ")
+        "spans scipy's degree-l harmonics, table == standard real harmonics (index l*l+l+m, m<0 sine, no "
+        "Condon-Shortley phase; the l=1 convention that `dirs` documents) at 1e-12, dirs == Lebedev unit vectors "
+        "at 1e-14. ")
 
 
 @subcheck("C19", "build_index_map", lambda: st_grid_case(4, 1, None, 3), quick=1200, thorough=20000,
